@@ -7,7 +7,9 @@ Record fbuild_case := mk_fbuild {
   fb_width : N; fb_lens : list N; fb_seed : N;
   fb_built : option (N * N);      (* fingerprint of the stored DAG, returned size *)
   fb_ref : option (N * N);        (* boxo balanced layout: fingerprint, Size() *)
-  fb_trickle : option (N * N)     (* boxo trickle layout (raw leaves) over the same chunks: fingerprint, Size() *)
+  fb_trickle : option (N * N);    (* boxo trickle layout (raw leaves) over the same chunks: fingerprint, Size() *)
+  fb_trickle_pb : option (N * N); (* boxo trickle layout, protobuf leaves *)
+  fb_balanced_pb : option (N * N) (* boxo balanced layout, protobuf leaves *)
 }.
 
 Definition fb_chunks (c : fbuild_case) : list bytes :=
@@ -30,6 +32,14 @@ Definition fbuild_ok (c : fbuild_case) : bool :=
      end
   && match fb_trickle c with
      | Some o => let '(root, sz) := trickle_layout w chunks in pairN_eqb (fp root, sz) o
+     | None => true
+     end
+  && match fb_trickle_pb c with
+     | Some o => let '(root, sz) := trickle_layout_g mk_pbleaf_raw w chunks in pairN_eqb (fp root, sz) o
+     | None => true
+     end
+  && match fb_balanced_pb c with
+     | Some o => let '(root, sz) := balanced_layout_g mk_pbleaf w chunks in pairN_eqb (fp root, sz) o
      | None => true
      end.
 Definition mismatches_fbuild (cs : list fbuild_case) : list N := mismatches fbuild_ok cs.
